@@ -204,3 +204,30 @@ Fixpoint pguardedb (a : astate) (ops : list op) : bool :=
   | [] => true
   | o :: rest => pstep_ok a o && pguardedb (astep a o).2 rest
   end.
+
+(* ---- an arbitrary deterministic client (the interpreter) ---------------------------------- *)
+(* the client sees the answers so far and decides the next call; [fuel] bounds the number of calls *)
+Fixpoint client_run_a (fuel : nat) (strat : list out -> option op) (a : astate) (hist : list out) : list (op * out) :=
+  match fuel with
+  | O => []
+  | S f => match strat hist with
+           | None => []
+           | Some o => let '(r, a') := astep a o in (o, r) :: client_run_a f strat a' (hist ++ [r])
+           end
+  end.
+Fixpoint client_run_s (fuel : nat) (strat : list out -> option op) (s : sstate) (hist : list out) : list (op * out) :=
+  match fuel with
+  | O => []
+  | S f => match strat hist with
+           | None => []
+           | Some o => let '(r, s') := spec_step s o in (o, r) :: client_run_s f strat s' (hist ++ [r])
+           end
+  end.
+Fixpoint client_guard (fuel : nat) (strat : list out -> option op) (a : astate) (hist : list out) : bool :=
+  match fuel with
+  | O => true
+  | S f => match strat hist with
+           | None => true
+           | Some o => pstep_ok a o && let '(r, a') := astep a o in client_guard f strat a' (hist ++ [r])
+           end
+  end.
